@@ -243,3 +243,23 @@ contract(U + "KeywordValueBase.match@keyword",
     raises={"*": {}},
     serves=["C02"],
 )
+
+# U15: SeparatorBase.match - "[ lhs ] : [ rhs ]" split at the first ':' of the abstracted text (C02, C03 subscript triplets)
+COL = "srm_line(string).find(':')"
+contract(U + "SeparatorBase.match",
+    types=dict(lhs_cls="cls?", rhs_cls="cls?", string="str", require_lhs="bool", require_rhs="bool"),
+    defaults=dict(require_lhs=False, require_rhs=False),
+    returns="tuple[ref:Base?,ref:Base?]?",
+    modifies=["rule_evals"],
+    calls={"string_replace_map": "proto:string_replace_map", "lhs_cls": "proto:operand_rule", "rhs_cls": "proto:operand_rule", "repmap": "pure:str"},
+    ensures={
+        "needs_a_colon": "implies(':' not in srm_line(string), result is None)",
+        "left_side_whole": "implies(result is not None, (nonnull(result)[0] is None) == (srm_line(string)[:" + COL + "].rstrip() == '') and "
+                           "implies(nonnull(result)[0] is not None, rule_text(nonnull(nonnull(result)[0])) == repmap(srm_line(string)[:" + COL + "].rstrip())))",
+        "right_side_whole": "implies(result is not None, (nonnull(result)[1] is None) == (srm_line(string)[" + COL + " + 1:].lstrip() == '') and "
+                            "implies(nonnull(result)[1] is not None, rule_text(nonnull(nonnull(result)[1])) == repmap(srm_line(string)[" + COL + " + 1:].lstrip())))",
+        "required_sides": "implies(result is not None, implies(require_lhs, nonnull(result)[0] is not None) and implies(require_rhs, nonnull(result)[1] is not None))",
+    },
+    raises={"*": {}},
+    serves=["C02", "C03"],
+)
